@@ -594,3 +594,55 @@ REG.add(Contract('utils.CharToLineOffset.__init__', types={'self': 'CLO', 'src':
 REG.add(Contract('utils.CharToLineOffset.__call__', types={'self': 'CLO', 'char_pos': 'int'}, result='tuple[int,int]',
                  requires=[A('breaks', 'self.breaks == nlpos(self.src)'), A('length', 'self.n == len(self.src)')],
                  ensures=[A('line-in-range', '0 <= result[0] and result[0] <= len(self.breaks)')]))
+
+
+# ---------------------------------------------------------------------- @to_buffer(): Buffer(f(Buffer(arg)))
+def new_buffer(eng, st, Qz, kind='Buffer'):
+    obj = st.new_obj('utils.Buffer', {'Q': VSeq(Qz, 'tok'), 'i': VI(0), 'm': VI(0)})
+    obj.a['view'] = kind
+    return obj
+
+
+def to_buffer_hook(eng, what, payload, st):
+    """a call of a function decorated with @to_buffer(): the decorator's wrap() converts the first argument to a
+    Buffer unless it is one and wraps the (generator) result in a Buffer; the generator is consumed lazily by the
+    next stage, which owns it (DESIGN 3.4), so it is executed here as a producer of the whole sequence"""
+    if what != 'decorated-call':
+        return None
+    fi, args, kwargs, node = payload
+    if 'to_buffer()' not in fi.decorators or getattr(eng, '_in_to_buffer', False):
+        return None
+    a0 = args[0]
+    if a0.ty in ('str', 'tok'):
+        s = strz(a0)
+        Q = fresh('chars', TokSeq)
+        st.fact(Length(Q) == Length(s))
+        eng.assume_clause(st, [QBool(BoolVal(True), IntVal(0), Length(Q), lambda k, Q=Q, s=s: And(
+            Tok.text(Q[k]) == SubSeq(s, k, 1), Length(Tok.text(Q[k])) == 1, Tok.cat(Q[k]) == NONE_CAT))])
+        a0 = new_buffer(eng, st, Q, 'StrBuffer')
+        a0.a['source'] = s
+    elif a0.ty == 'seq' and a0.a['elem'] == 'tok':
+        a0 = new_buffer(eng, st, a0.z)
+    elif a0.ty != 'obj':
+        raise Unsupported('to_buffer over ' + a0.ty)
+    eng._in_to_buffer = True
+    try:
+        outs = eng.call_function(fi.qual, [a0] + list(args[1:]), kwargs, st, node)
+    finally:
+        eng._in_to_buffer = False
+    res = []
+    for o in outs:
+        if o[0] == 'val' and o[2].ty == 'seq':
+            b = new_buffer(eng, o[1], o[2].z)
+            b.a['produced_by'] = fi.qual
+            b.a['input'] = a0
+            for hk in STAGE_HOOKS:
+                hk(eng, o[1], b)
+            res.append(('val', o[1], b))
+        else:
+            res.append(o)
+    return res
+
+
+STAGE_HOOKS = []     # callables(engine, st, wrapped buffer) after a @to_buffer() stage has produced its output
+REG.attr_hooks.append(to_buffer_hook)
